@@ -1346,6 +1346,13 @@ impl<'a, E: ColumnValueEncoder> GenericColumnWriter<'a, E> {
     /// Adds data page.
     /// Data page is either buffered in case of dictionary encoding or written directly.
     pub(crate) fn add_data_page(&mut self) -> Result<()> {
+        // A page boundary forced by content-defined chunking can fall right after a page
+        // that was already flushed, there is nothing to write then (and not every value
+        // encoder can be flushed before it has seen a value)
+        if self.page_metrics.num_buffered_values == 0 {
+            return Ok(());
+        }
+
         // Extract encoded values
         let values_data = self.encoder.flush_data_page()?;
 
